@@ -35,8 +35,9 @@ Proof.
 Qed.
 Lemma ksorted_asort {V} (l : list (bytes * V)) : NoDup (map fst l) -> ksorted (asort l).
 Proof.
-  induction l as [|e l IH]; intros ND; cbn [asort fold_right]; [constructor|]. inversion ND as [|? ? NI ND']; subst.
-  apply ksorted_ains; [|apply IH, ND']. intros x Ix E. apply In_asort in Ix. apply NI. rewrite <- E. apply in_map. exact Ix.
+  induction l as [|e l IH]; intros ND; [constructor|]. change (asort (e :: l)) with (ains e (asort l)).
+  inversion ND as [|? ? NI ND']; subst.
+  apply ksorted_ains; [|apply IH, ND']. intros x Ix E. apply (proj1 (In_asort _ _)) in Ix. apply NI. rewrite <- E. apply in_map. exact Ix.
 Qed.
 Lemma asort_sorted {V} (l : list (bytes * V)) : ksorted l -> asort l = l.
 Proof.
@@ -108,8 +109,8 @@ Proof.
         destruct (Split _ _ _ E) as [(-> & -> & ->)|(L1' & -> & ->)].
         + exfalso. exact (N3 He).
         + right. exists L1', e, L2. repeat split; try assumption. intros e' I. apply N1. right. exact I. }
-    apply existsb_fst_false in Hd.
-    assert (~ In a expired) as He' by (intros I; apply existsb_beqb_true in I; congruence).
+    pose proof (proj1 (existsb_fst_false data a) Hd) as Hd'. clear Hd. rename Hd' into Hd.
+    assert (~ In a expired) as He' by (intros I; apply (proj2 (existsb_beqb_true a expired)) in I; congruence).
     change ((nth 0 v 0 <? vr) && (0 <? nth 0 v 0)) with (econd vr (k, v)).
     destruct (econd vr (k, v)) eqn:Hc; cbn [negb].
     { (* expired: kept *)
@@ -148,7 +149,7 @@ Proof.
   destruct (existsb (beqb (extractOnlineAccountBalanceAddress k)) expired); [apply IH, ND|].
   destruct (negb ((nth 0 v 0 <? vr) && (0 <? nth 0 v 0))); apply IH; [exact ND|].
   rewrite map_app. cbn [map fst]. apply NoDup_snoc; [exact ND|].
-  intros I. apply in_map_iff in I as (d & E & I). apply existsb_fst_false in Hd. exact (Hd d I E).
+  intros I. apply in_map_iff in I as (d & E & I). exact (proj1 (existsb_fst_false data _) Hd d I E).
 Qed.
 
 (* ---------- generic list facts ---------- *)
@@ -249,7 +250,7 @@ Proof.
       destruct (N.lt_ge_cases r1 r') as [Lt|Ge]; [|exact Ge]. exfalso.
       apply (N1 (bal_entry a1 r' v')).
       * apply (XL_before L1 _ L2 _ E). split; [apply XL_In; exists a1, r', v'; auto|].
-        apply (klt_bal s kv HR a1 r1 v1 r' v' J1 J'). exact Lt.
+        apply (klt_bal s kv rnd HR Vrnd a1 r1 v1 r' v' J1 J'). exact Lt.
       * destruct (bal_entry_fields s kv HR a1 r' v' J') as (Fa' & _). rewrite Fa', Fa1. reflexivity.
     + unfold econd in C. rewrite Fv1 in C. exact C.
   - intros (r & v0 & J & Lat & -> & C). right.
@@ -262,7 +263,7 @@ Proof.
     intros e' Je' Ea. apply (XL_before L1 _ L2 e' E) in Je' as [Je' Lt].
     apply XL_In in Je' as (a2 & r2 & v2 & -> & J2 & Le2).
     destruct (bal_entry_fields s kv HR a2 r2 v2 J2) as (Fa2 & _). rewrite Fa2, Fa in Ea. subst a2.
-    apply (klt_bal s kv HR a r v0 r2 v2 J J2) in Lt. specialize (Max r2 v2 J2 Le2). lia.
+    apply (klt_bal s kv rnd HR Vrnd a r v0 r2 v2 J J2) in Lt. specialize (Max r2 v2 J2 Le2). lia.
 Qed.
 
 Lemma specres_In a d : In (a, d) specres <->
@@ -270,7 +271,7 @@ Lemma specres_In a d : In (a, d) specres <->
                (onl_votelast v0 <? vr) && (0 <? onl_votelast v0) = true.
 Proof.
   unfold specres, spec_expired_online_accounts, spec_latest_rows. rewrite in_map_iff. split.
-  - intros ([k v0] & E & J). apply filter_In in J as [J C]. apply In_ssort, filter_In in J as [J Lat].
+  - intros ([k v0] & E & J). apply filter_In in J as [J C]. apply (proj1 (In_ssort _ _)) in J. apply filter_In in J as [J Lat].
     cbn [fst snd] in *. destruct k; try discriminate. cbn [onl_addr] in E. injection E as <- <-.
     exists r, v0. auto.
   - intros (r & v0 & J & Lat & -> & C). exists (KOnl a r, v0). split; [reflexivity|].
@@ -286,15 +287,15 @@ Proof.
     - pose proof (wf_valid s (proj1 HR)) as V. rewrite Forall_forall in V |- *. intros x I. apply filter_In in I as [I _]. exact (V _ I).
     - apply map_fst_filter. exact (proj1 (proj1 HR)). }
   apply SSorted_map_inv in S. apply (SSorted_filter _ (fun e => (onl_votelast (snd e) <? vr) && (0 <? onl_votelast (snd e)))) in S.
-  eapply SSorted_map_In; [|exact S]. intros [k1 v1] [k2 v2] I1 I2 Lt.
+  eapply SSorted_map_In; [|exact S]. intros [k1 v1] [k2 v2] I1 I2 HLt.
   apply filter_In in I1 as [I1 _]. apply filter_In in I2 as [I2 _].
-  apply In_ssort, filter_In in I1 as [J1 L1]. apply In_ssort, filter_In in I2 as [J2 L2].
+  apply (proj1 (In_ssort _ _)) in I1. apply filter_In in I1 as [J1 L1]. apply (proj1 (In_ssort _ _)) in I2. apply filter_In in I2 as [J2 L2].
   pose proof (wf_valid s (proj1 HR)) as V. rewrite Forall_forall in V.
   pose proof (V _ J1) as V1. pose proof (V _ J2) as V2. cbn [fst] in V1, V2.
-  unfold klt, encV in Lt. cbn [fst] in Lt. rewrite enc_order in Lt by assumption.
-  destruct k1; try discriminate. destruct k2; try discriminate. cbn [skey_cmp] in Lt.
-  unfold klt. cbn [fst onl_addr]. destruct (bcmp a a0) eqn:C; cbn [lexc] in Lt; [|reflexivity|discriminate].
-  exfalso. apply bcmp_eq in C. subst a0. apply N.compare_lt_iff in Lt.
+  unfold klt, encV in HLt. cbn [fst] in HLt. rewrite enc_order in HLt by assumption.
+  destruct k1; try discriminate. destruct k2; try discriminate. cbn [skey_cmp] in HLt.
+  unfold klt. cbn [fst onl_addr]. destruct (bcmp a a0) eqn:C; cbn [lexc] in HLt; [|reflexivity|discriminate].
+  exfalso. apply bcmp_eq in C. subst a0. rewrite N.compare_lt_iff in HLt.
   apply (is_latest_spec a r v1 J1) in L1 as [_ Max1]. apply (is_latest_spec a r0 v2 J2) in L2 as [Le2 _].
   specialize (Max1 r0 v2 J2 Le2). lia.
 Qed.
@@ -302,9 +303,10 @@ Qed.
 Theorem expired_refines :
   o_exp (kv_expired_online_accounts kv rnd vr) = o_exp (spec_expired_online_accounts s rnd vr).
 Proof.
-  unfold o_exp. do 3 f_equal.
+  unfold o_exp.
   change (kv_expired_online_accounts kv rnd vr) with kvres. change (spec_expired_online_accounts s rnd vr) with specres.
   rewrite (asort_sorted specres specres_sorted).
+  assert (asort kvres = specres) as ->; [|reflexivity].
   apply ksorted_unique.
   - apply ksorted_asort. apply exp_loop_nodup. constructor.
   - exact specres_sorted.
